@@ -16,6 +16,7 @@ import GoNfsd.Model.Locks
 import GoNfsd.Lemmas.Serial
 import GoNfsd.Gen.Skeleton
 import GoNfsd.Lemmas.SlotLock
+import GoNfsd.Lemmas.Reveal
 
 namespace GoNfsd.Props.C03
 open GoNfsd.Model.Locks
@@ -194,5 +195,59 @@ theorem slot_fetched_before_the_lock_sees_aborted_changes :
       fun s => (s.lock 5, s.ptr 2 5, s.tainted 0)) = some (some 2, some 0, some 1) := by decide
 
 end slotlock
+
+/-! ### what another transaction reads can no longer be lost (model M11) -/
+section reveal
+open GoNfsd.Model.Reveal
+
+/-- WHAT A REPLY REVEALS IS DURABLE.  The journal's log has a part on disk and a part in memory;
+    commits append (with or without waiting for the disk), the logger writes in the background,
+    anybody may flush.  Under the discipline of `fstxn.commitWait` — a transaction gives a lock
+    back only when nothing of it is pending, unstable WRITEs aside — in every state reachable by any interleaving of any
+    transactions, a transaction that holds the lock of `k` (and has nothing pending itself) reads
+    for `k` — unless an unstable WRITE to `k` is pending — exactly the value the server would have after a crash at this very moment. -/
+theorem what_another_transaction_reads_is_durable (ops : List Op) (s : St) (t k : Nat)
+    (hd : Disciplined empty ops) (hr : run empty ops = some s)
+    (hl : s.lock k = some t) (hp : ∀ c ∈ s.pend, c.1 ≠ t)
+    (hu : ∀ c ∈ s.pend, c.2.1 = true → ∀ kv ∈ c.2.2, kv.1 ≠ k) :
+    s.read k = s.recovered k :=
+  read_is_recovered s t k (run_inv ops empty s empty_inv hd hr) hl hp hu
+
+/-- the only thing that can be pending on a key whose lock another transaction holds is an
+    unstable WRITE (whose loss the protocol allows and reports: C07) -/
+theorem only_unstable_writes_are_revealed_early (ops : List Op) (s : St) (t k : Nat)
+    (hd : Disciplined empty ops) (hr : run empty ops = some s) (hl : s.lock k = some t)
+    (c : Commit) (hc : c ∈ s.pend) (hne : c.1 ≠ t) (kv : Nat × Nat) (hkv : kv ∈ c.2.2) (e : kv.1 = k) :
+    c.2.1 = true :=
+  pending_on_locked_key_is_unstable s t k (run_inv ops empty s empty_inv hd hr) hl c hc hne kv hkv e
+
+/-- ... and it stays durable: whatever happens afterwards, the log recovery finds at any later
+    crash extends the one that read was served from (nothing durable is ever taken back). -/
+theorem what_was_durable_stays_durable (ops : List Op) (s s' : St) (hr : run s ops = some s') :
+    ∃ ext, s'.dur = s.dur ++ ext := run_dur_prefix ops s s' hr
+
+/-- Without the discipline it fails in four steps (the seeded changes C08k and C17k: the locks
+    are given back, or not taken, while the commit is still in memory): transaction 1 writes key 5
+    without waiting and releases; transaction 2 reads 7; a crash now recovers nothing. -/
+example : ∃ s, run empty [.acquire 1 5, .commit 1 [(5, 7)] false false, .release 1 5, .acquire 2 5] = some s ∧
+    s.lock 5 = some 2 ∧ s.read 5 = some 7 ∧ s.recovered 5 = none := ⟨_, rfl, rfl, rfl, rfl⟩
+
+/-- the code's order — commit, wait for the disk, release — is disciplined, and the premises of
+    the theorem are met by the reader that comes next -/
+example : Disciplined empty [.acquire 1 5, .commit 1 [(5, 7)] true false, .release 1 5, .acquire 2 5] ∧
+    ∃ s, run empty [.acquire 1 5, .commit 1 [(5, 7)] true false, .release 1 5, .acquire 2 5] = some s ∧
+      s.lock 5 = some 2 ∧ s.pend = [] ∧ s.read 5 = some 7 ∧ s.recovered 5 = some 7 := by
+  refine ⟨?_, _, rfl, rfl, rfl, rfl, rfl⟩
+  simp [Disciplined, step, empty, upd]
+
+/-- a commit that does not wait, followed by the release, is NOT disciplined — unless it is an
+    unstable WRITE (its data may be read and then lost: the NFS contract of C07 allows exactly
+    that, through the write verifier) -/
+example : ¬ Disciplined empty [.acquire 1 5, .commit 1 [(5, 7)] false false, .release 1 5] := by
+  simp [Disciplined, step, empty, upd]
+example : Disciplined empty [.acquire 1 5, .commit 1 [(5, 7)] false true, .release 1 5] := by
+  simp [Disciplined, step, empty, upd]
+
+end reveal
 
 end GoNfsd.Props.C03
